@@ -271,6 +271,7 @@ type world struct {
 	forcedCancel    bool
 	simNs           int64
 	idleAfterCancel time.Duration
+	followDone      bool
 	inconclusive    bool
 	verbose         bool
 	hadBatch        map[int]bool
@@ -541,6 +542,24 @@ func (w *world) simulate(choices []int) {
 		if len(w.found) >= 2 && !w.returned {
 			w.faults["simultaneous_finds"] = 1
 		}
+		if w.returned && cfg.FollowUp && !w.followDone {
+			// the next call on the same Worker, made right after this one has returned - while this call's watcher, which
+			// has seen the cancellation, is still on its way out ("finishes immediately" is not "has finished")
+			w.followDone = true
+			held := false
+			for _, e := range parked {
+				if e.Who == Watcher && e.Site == "watcher.cancelled" {
+					held = true
+				}
+			}
+			if held && w.ret.err == nil && w.ret.panic == "" {
+				w.followUp(k, st, data, wk1, wk2)
+				if w.res.Class != "" || w.res.Diverged != "" || w.inconclusive {
+					break
+				}
+				continue
+			}
+		}
 		capCancel := hasCanceller && cfg.Prop == "C13"
 		if len(k.Trace) >= cfg.StepCap && !w.returned && !w.cancelDelivered && capCancel && !w.cancelFired && !w.replay && !w.forcedCancel {
 			w.forcedCancel = true
@@ -803,6 +822,88 @@ func (w *world) simulate(choices []int) {
 // idleSlices: how the clock is let run when nothing is enabled (sums to a little more than two days).
 var idleSlices = []time.Duration{time.Millisecond, 9 * time.Millisecond, 90 * time.Millisecond, 900 * time.Millisecond,
 	4 * time.Second, 5 * time.Second, 20 * time.Second, 30 * time.Second, 9 * time.Minute, 50 * time.Minute, 47 * time.Hour}
+
+// followUp makes a second Mine call on the same Worker object - same message, same target, context.Background() - while
+// what the first call left behind (its watcher, parked right before its store) is still there, and schedules the two
+// together. The first call found a nonce, so the second can; its context can never be cancelled, so it must not
+// report a cancellation.
+func (w *world) followUp(k *kernel.Sched, st *stub, data []byte, wk1 *pow1.Worker, wk2 *pow2.Worker) {
+	cfg := w.cfg
+	w.probes["second_call_while_the_first_calls_watcher_is_on_its_way_out"] = 1
+	res2 := make(chan mineRet, 1)
+	go func() {
+		defer func() {
+			if r := recover(); r != nil {
+				res2 <- mineRet{panic: fmt.Sprintf("%v\n%s", r, debug.Stack())}
+			}
+		}()
+		kernel.Yield("caller.start", Caller)
+		var n uint64
+		var err error
+		if cfg.Version == 1 {
+			n, err = wk1.Mine(context.Background(), data, cfg.targetF())
+		} else {
+			n, err = wk2.Mine(context.Background(), data, cfg.TargetBits)
+		}
+		res2 <- mineRet{nonce: n, err: err}
+	}()
+	k.SetStrategy(kernel.Uniform{R: kernel.NewRand(cfg.Strat.Seed ^ 0xf0110)})
+	var r mineRet
+	for steps := 0; ; steps++ {
+		k.Quiesce()
+		kernel.HiddenSleep(w.step)
+		k.Quiesce()
+		if st != nil {
+			drainLog(st, w)
+		}
+		got := false
+		select {
+		case r = <-res2:
+			got = true
+		default:
+		}
+		if got {
+			break
+		}
+		var en []kernel.Enabled
+		for _, e := range k.Parked() {
+			if e.Who != Canceller {
+				en = append(en, e)
+			}
+		}
+		if len(en) == 0 {
+			w.violate("deadlock", "a second Mine call on the same Worker, made right after the first had returned, does not return and nothing is enabled; "+describeBlocked(nil), nil)
+			return
+		}
+		if steps == 800 {
+			k.SetStrategy(kernel.RoundRobin{})
+		}
+		if steps > 8000 {
+			w.inconclusive = true
+			return
+		}
+		e, ok := k.Pick(en)
+		if !ok {
+			w.res.Diverged = k.Diverged
+			return
+		}
+		k.Wake(e.Who)
+	}
+	k.SetStrategy(kernel.RoundRobin{})
+	sig := map[string]any{"version": cfg.Version, "hash": cfg.Hash}
+	switch {
+	case r.panic != "":
+		first := r.panic
+		if j := strings.IndexByte(first, '\n'); j > 0 {
+			first = first[:j]
+		}
+		w.violate("panic:"+first, "second Mine call on the same Worker: "+r.panic, sig)
+	case r.err != nil:
+		w.violate("cancelled-without-cancel", fmt.Sprintf("a second Mine call on the same Worker, made with context.Background() right after the first call had returned its nonce (the first call's context had been cancelled and its watcher was still on its way out), returned the error %q: its context can never be cancelled", r.err), sig)
+	default:
+		w.probes["second_call_returned_a_nonce"] = 1
+	}
+}
 
 // onlyHeld reports whether nothing but a held-back canceller remains parked.
 func onlyHeld(en, parked []kernel.Enabled) bool {
